@@ -93,7 +93,7 @@ def resolved(s: PathSummary, v: Optional[ast.AST], before: Optional[int] = None,
     return v
 
 
-def closed(s: PathSummary, e: Optional[ast.AST], before: Optional[int] = None, depth: int = 4, keep: Sequence[str] = ()) -> Optional[ast.AST]:
+def closed(s: PathSummary, e: Optional[ast.AST], before: Optional[int] = None, depth: int = 4, keep: Sequence[str] = (), opq: Optional[frozenset] = None) -> Optional[ast.AST]:
     """*e* with the opaque locals it mentions replaced by what they were bound to on this path (constructor results, call results)."""
     import copy as _copy
     if e is None:
@@ -107,7 +107,8 @@ def closed(s: PathSummary, e: Optional[ast.AST], before: Optional[int] = None, d
         def visit_Name(self, n: ast.Name):
             if isinstance(n.ctx, ast.Load) and self.d > 0 and n.id not in keep:
                 r = s.resolve(n.id, before)
-                if r is not None and r[1].opaque and r[1].value is not None and isinstance(r[1].target, ast.Name) and not (isinstance(r[1].value, ast.Name) and r[1].value.id == n.id):
+                if r is not None and (r[1].opaque or (opq is not None and n.id in opq)) and r[1].value is not None and isinstance(r[1].target, ast.Name) \
+                        and not (isinstance(r[1].value, ast.Name) and r[1].value.id == n.id) and not any(isinstance(x, ast.Name) and x.id == n.id for x in ast.walk(r[1].value)):
                     return T(self.d - 1).visit(_copy.deepcopy(r[1].value))
             return n
 
@@ -119,7 +120,7 @@ def closed(s: PathSummary, e: Optional[ast.AST], before: Optional[int] = None, d
 
 def closed_text(s: PathSummary, eff: Eff, keep: Sequence[str] = ()) -> str:
     i = s.effects.index(eff)
-    e2 = Eff(eff.kind, closed(s, eff.target, i, keep=keep) if eff.kind != "bind" else eff.target, closed(s, eff.value, i, keep=keep), eff.line, eff.loops, eff.raw)
+    e2 = Eff(eff.kind, closed(s, eff.target, i, keep=keep, opq=eff.opq) if eff.kind != "bind" else eff.target, closed(s, eff.value, i, keep=keep, opq=eff.opq), eff.line, eff.loops, eff.raw)
     return e2.text
 
 
